@@ -1,6 +1,7 @@
 // Native replay for ElectricField and the impedance models: real classes vs naive double-precision DFT oracle.
 // usage: ef_replay wake <N> <nb_buckets_pattern e.g. 101> <spacing> <nmax> <seed>
 //        ef_replay z <n>
+//        ef_replay fftw <nlo> <nhi>   conformance of the linked FFTW (through the real fft:: wrappers) with the transform contracts A-FFTW-R2C / A-FFTW-C2R
 //        ef_replay zfile   impedance files: empty, malformed, trailing newline, incomplete last line -> number of samples read
 //        ef_replay factory <n> <gap> <use_csr> <s> <xi> <inner_radius> <file 0|1> <R_bend> <frev>
 // exit 0 agree, 1 mismatch, 3 usage
@@ -54,6 +55,38 @@ int main(int argc, char** argv) {
         Impedance sum(n, 1e12); sum += FreeSpaceCSR(n, 9e6, 1e12); sum += ResistiveWall(n, 9e6, 1e12, 33.0, 1e6, 0.0, 0.015);
         chk("sum", sum);
         printf("z: %d mismatches (n=%zu)\n", bad, n);
+        return bad ? 1 : 0;
+    }
+    if (mode == "fftw" && argc == 4) {
+        // A-FFTW-R2C: out[k] = sum_j in[j] exp(-2 pi i jk/n) for k <= n/2, nothing above n/2 is written, input unchanged.
+        // A-FFTW-C2R: out[j] = Re-part Hermitian inverse of in[0..n/2] (unnormalised); in[k] for k >= n/2 is NOT modified
+        //             (in[0..n/2) may be destroyed) — the part of the buffer the class invariant keeps at zero.
+        size_t lo = atoi(argv[2]), hi = atoi(argv[3]);
+        std::mt19937 g(7); std::uniform_real_distribution<float> u(-1, 1);
+        for (size_t n = lo; n <= hi; n++) {
+            float* in = fft::fft_alloc_real(n); fft::complex* out = fft::fft_alloc_complex(n);
+            auto p1 = fft::prepareFFT(n, in, out);
+            std::vector<float> x(n); for (size_t j = 0; j < n; j++) x[j] = in[j] = u(g);
+            impedance_t* o = reinterpret_cast<impedance_t*>(out);
+            for (size_t k = 0; k < n; k++) o[k] = impedance_t(777.0f, -777.0f);
+            fft::fft_execute(p1);
+            double sc = std::sqrt((double)n);
+            for (size_t k = 0; k <= n / 2; k++) { cd s = 0; for (size_t j = 0; j < n; j++) s += (double)x[j] * std::polar(1.0, -2 * M_PI * double(k * j % n) / n);
+                cmp("r2c.re", (int)n, (int)k, o[k].real(), s.real(), 2e-5, sc); cmp("r2c.im", (int)n, (int)k, o[k].imag(), s.imag(), 2e-5, sc); }
+            for (size_t k = n / 2 + 1; k < n; k++) if (o[k] != impedance_t(777.0f, -777.0f)) { if (bad < 8) printf("MISMATCH r2c n=%zu wrote output element %zu above n/2\n", n, k); bad++; }
+            for (size_t j = 0; j < n; j++) if (in[j] != x[j]) { if (bad < 8) printf("MISMATCH r2c n=%zu modified its input at %zu\n", n, j); bad++; }
+            fft::complex* cin = fft::fft_alloc_complex(n); float* rout = fft::fft_alloc_real(n);
+            auto p2 = fft::prepareFFT(n, cin, rout);
+            impedance_t* ci = reinterpret_cast<impedance_t*>(cin);
+            std::vector<impedance_t> y(n); for (size_t k = 0; k < n; k++) y[k] = ci[k] = impedance_t(u(g), u(g));
+            fft::fft_execute(p2);
+            for (size_t j = 0; j < n; j++) { double s = y[0].real();
+                for (size_t k = 1; k <= n / 2; k++) { cd t = cd(y[k].real(), y[k].imag()) * std::polar(1.0, 2 * M_PI * double(k * j % n) / n); s += (2 * k == n) ? t.real() : 2 * t.real(); }
+                cmp("c2r", (int)n, (int)j, rout[j], s, 2e-5, (double)n); }
+            for (size_t k = n / 2; k < n; k++) if (ci[k] != y[k] && !(2 * k == n)) { if (bad < 8) printf("MISMATCH c2r n=%zu modified input element %zu (>= n/2)\n", n, k); bad++; }
+            fft::fft_destroy_plan(p1); fft::fft_destroy_plan(p2); fft::fft_free(in); fft::fft_free(out); fft::fft_free(cin); fft::fft_free(rout);
+        }
+        printf("fftw: %d mismatches (n=%zu..%zu)\n", bad, lo, hi);
         return bad ? 1 : 0;
     }
     if (mode == "zfile" && argc == 2) {
